@@ -6,6 +6,7 @@ E2: BFS over histories of searches/generator steps on ONE pattern object (memo o
 from __future__ import annotations
 
 import itertools
+import math
 
 from .. import refmodel as R
 from ..core import Partial
@@ -258,6 +259,76 @@ def shard_table(shard):
     return part
 
 
+# --------------------------------------------------------------------------------------------
+# scale: structured long texts (sizes straddling the runtime's thresholds)
+# --------------------------------------------------------------------------------------------
+# Exhaustive pairs stop at text length 7-8.  Nothing in the ALGORITHM changes beyond that, but the
+# RUNTIME has thresholds of its own (small-int cache at 256, byte-sized buffers at 256, unsorted
+# iteration of small int sets from values 8 / 32): a sparse, fully enumerated family of structured
+# texts at sizes around them, with every pattern of length <= 2 (<= 3 for the short sizes) and the
+# patterns obtained by deleting one point (two points for the short sizes) from the text - for all
+# of which the definition is still cheap to evaluate.
+
+SCALE_SIZES_QUICK = (8, 9, 10, 12, 31, 32, 33, 34, 255, 256, 257, 258, 300)
+SCALE_SIZES_THOROUGH = SCALE_SIZES_QUICK + (11, 16, 17, 64, 65, 127, 128, 129, 259, 511, 512, 513)
+
+
+def scale_texts(n):
+    """name -> text of length n."""
+    out = {}
+    ident = tuple(range(n))
+    out["identity"] = ident
+    out["reverse"] = ident[::-1]
+    for i in sorted({0, 7, 8, n // 2, n - 2}):
+        if 0 <= i < n - 1:
+            t = list(ident)
+            t[i], t[i + 1] = t[i + 1], t[i]
+            out["swap@%d" % i] = tuple(t)
+    out["rotate1"] = ident[1:] + ident[:1]
+    out["rotate-1"] = ident[-1:] + ident[:-1]
+    for k in (7, 11, 13):
+        if math.gcd(k, n) == 1:
+            out["%d*i mod n" % k] = tuple((i * k) % n for i in range(n))
+            break
+    out["layered3"] = tuple(v for b in range(0, n, 3) for v in reversed(range(b, min(b + 3, n))))
+    h = n // 2
+    out["skew-halves"] = tuple(range(h, n)) + tuple(range(h))
+    return out
+
+
+def _deletions(t, k):
+    n = len(t)
+    if k == 1:
+        pos = range(n) if n <= 40 else sorted({0, 1, 7, 8, 9, n // 2, n - 9, n - 2, n - 1})
+        return [(i,) for i in pos]
+    return list(itertools.combinations(range(n), 2)) if n <= 12 else []
+
+
+def shard_scale(shard):
+    n, name, maxk = shard
+    Perm = _P()
+    part = Partial()
+    t = scale_texts(n)[name]
+    groups = ref_groups(t, maxk)
+    for k in range(0, maxk + 1):
+        for p in R.perms(k):
+            ref = groups.get(p, [])
+            check_pair(part, Perm, p, t, ref, True)
+            part.add(1, 1 if (k and ref and len(ref) < _comb(n, k)) else 0)
+    # patterns of length n-1 (and n-2): the definition needs only the C(n,1) (C(n,2)) index sets
+    for dk in (1, 2):
+        subsets = list(itertools.combinations(range(n), n - dk)) if (dk == 1 or n <= 12) else []
+        stds = None
+        for dele in _deletions(t, dk):
+            p = R.std([t[i] for i in range(n) if i not in dele])
+            if stds is None:
+                stds = [(idx, R.std([t[i] for i in idx])) for idx in subsets]
+            ref = [idx for idx, q in stds if q == p]
+            check_pair(part, Perm, p, t, ref, True)
+            part.add(1, 1 if len(ref) < len(subsets) else 0)
+    return part
+
+
 def chunks(n, per):
     import math
     total = math.factorial(n)
@@ -477,6 +548,16 @@ def run(ctx, only=None):
                                "(pattern, text) pair among extensions by <= 2 points" % top)
         ctx.section("table", evaluations=ctx.evals - e0,
                     deviations=ctx.counters.get("table_deviations", 0))
+    if want("scale"):
+        e0 = ctx.evals
+        sizes = SCALE_SIZES_QUICK if quick else SCALE_SIZES_THOROUGH
+        shards = [(n, name, 3 if n <= 34 else 2) for n in sizes for name in scale_texts(n)]
+        ctx.pmap(shard_scale, shards)
+        ctx.bounds["scale"] = {"text_sizes": list(sizes), "shapes": sorted(scale_texts(300)),
+                               "patterns": "all of length <= 3 (sizes <= 34) / <= 2 (larger), the text "
+                                           "minus one point (every position for sizes <= 40, else 9 "
+                                           "positions), the text minus two points (sizes <= 12)"}
+        ctx.section("scale", evaluations=ctx.evals - e0)
     if want("longer"):
         ctx.pmap(shard_longer, [(n,) for n in range(0, 5)])
     if want("multi"):
